@@ -18,6 +18,11 @@ fn unhex(s: &str) -> String {
     String::from_utf8_lossy(&b).to_string()
 }
 
+/// readable form of a battery output field (`ok <hex>`, `differs <hex>`, `<hex>`, `same`, `err`)
+fn show(v: &str) -> String {
+    v.split(' ').map(|w| if w.len() >= 2 && w.len() % 2 == 0 && w.bytes().all(|b| b.is_ascii_hexdigit()) { unhex(w) } else { w.to_string() }).collect::<Vec<_>>().join(" ")
+}
+
 /// the canonical dump the battery prints, computed from the model (toml_edit flavour: in order)
 fn dump(n: &Node, sorted: bool, out: &mut String) {
     match n {
@@ -185,7 +190,7 @@ const CONFIGS: [Cfg; 14] = [
 
 pub fn run(args: Args) -> ! {
     let mut rep = Report::new("C18", args.tier, args.seed);
-    rep.rule = "a battery crate is compiled against /repo once per feature configuration (6 quick / 14 thorough: default, perf, preserve_order, toml_edit parse-only / display-only, serde on/off, everything + unbounded, toml parse-only / display-only, with perf and preserve_order crossed in), each in its own target directory; every configuration must build. The battery is a seeded list of generated documents (valid in every lexical variant, mutants, long and repeated keys, over-limit nesting) and of generated structures built through the API. Per item and capability the binary prints a canonical dump; the harness requires: dumps equal across all configurations that have the capability and, for by-construction documents, equal to the harness' own expectation; toml's key order is insertion order under preserve_order and sorted without; over-limit nesting flips from reject to accept under unbounded only. non-trivial = the item has a key longer than 15 bytes or a repeated key (perf path) or >= 2 keys out of sorted order (preserve_order path); distinct by item".into();
+    rep.rule = "a battery crate is compiled against /repo once per feature configuration (6 quick / 14 thorough: default, perf, preserve_order, toml_edit parse-only / display-only, serde on/off, everything + unbounded, toml parse-only / display-only, with perf and preserve_order crossed in), each in its own target directory; every configuration must build. The battery is a seeded list of generated documents (valid in every lexical variant, mutants, long and repeated keys, over-limit nesting) of generated structures built through the API, of call histories on toml::Table, and of edit histories (new tables, pushed array-of-tables elements, new values, removals) on larger parsed documents whose header order differs from their tree order. Per item and capability the binary prints a canonical dump; the harness requires: dumps equal across all configurations that have the capability and, for by-construction documents, equal to the harness' own expectation; toml's key order is insertion order under preserve_order and sorted without; over-limit nesting flips from reject to accept under unbounded only. non-trivial = the item has a key longer than 15 bytes or a repeated key (perf path) or >= 2 keys out of sorted order (preserve_order path); distinct by item".into();
     rep.assumptions = vec!["configurations are built with the repository's lock file offline; the battery program shares no code with the harness".into()];
     let n_items = 2000usize;
     // ---- battery (seeded, feature independent)
@@ -196,6 +201,9 @@ pub fn run(args: Args) -> ! {
         Tree(Tbl),
         /// a call history on toml::Table with the key order expected under preserve_order and without
         Ops { insertion: String, sorted: String },
+        /// an edit history on a parsed toml_edit document (printed text, tree and read-back verdict compared
+        /// across configurations)
+        Edit { text: String, sections: usize },
     }
     let mut expects: Vec<Expect> = vec![];
     let fx = crate::corpus::load();
@@ -263,6 +271,68 @@ pub fn run(args: Args) -> ! {
                 model.sort_by(|a, b| a.0.cmp(&b.0));
                 lines.push(line);
                 expects.push(Expect::Ops { insertion, sorted: fmt(&model) });
+            }
+            7 => {
+                // an edit history on a larger parsed document whose header order differs from its tree order
+                let mut cfg = GenCfg::default();
+                cfg.f11_safe = true;
+                cfg.allow_bom = false;
+                cfg.reorder = true;
+                cfg.sub_before_super = true;
+                cfg.budget = 40 + t.below(120);
+                let r = gen_doc(&mut t, &cfg);
+                let mut tpaths: Vec<Vec<String>> = vec![vec![]];
+                let mut apaths: Vec<Vec<String>> = vec![];
+                fn walk(tb: &Tbl, base: &Vec<String>, tp: &mut Vec<Vec<String>>, ap: &mut Vec<Vec<String>>) {
+                    for (k, n) in &tb.entries {
+                        let mut p = base.clone();
+                        p.push(k.clone());
+                        match n {
+                            Node::Table(s) if s.kind != TblKind::Inline => {
+                                tp.push(p.clone());
+                                walk(s, &p, tp, ap);
+                            }
+                            Node::Aot(a) => {
+                                ap.push(p.clone());
+                                if let Some(l) = a.last() {
+                                    tp.push(p.clone());
+                                    walk(l, &p, tp, ap);
+                                }
+                            }
+                            _ => {}
+                        }
+                    }
+                }
+                walk(&r.expected, &vec![], &mut tpaths, &mut apaths);
+                let enc = |p: &Vec<String>| p.iter().map(|k| if k.is_empty() { "00".to_string() } else { hex(k) }).collect::<Vec<_>>().join(".");
+                // (keys are never empty after hex unless the key is the empty string: those paths are skipped)
+                tpaths.retain(|p| p.iter().all(|k| !k.is_empty()));
+                apaths.retain(|p| p.iter().all(|k| !k.is_empty()));
+                let mut ops = String::new();
+                for _ in 0..3 + t.below(14) {
+                    match t.weighted(&[4, 4, 2, 1]) {
+                        0 => ops.push_str(&format!("T{};", enc(t.pick(&tpaths)))),
+                        1 => {
+                            if !apaths.is_empty() && t.chance(3, 4) {
+                                ops.push_str(&format!("A{};", enc(t.pick(&apaths))));
+                            } else {
+                                let mut p = t.pick(&tpaths).clone();
+                                p.push("fresh".into());
+                                ops.push_str(&format!("A{};", enc(&p)));
+                            }
+                        }
+                        2 => ops.push_str(&format!("V{};", enc(t.pick(&tpaths)))),
+                        _ => {
+                            let p = t.pick(&tpaths);
+                            if !p.is_empty() {
+                                ops.push_str(&format!("X{};", enc(p)));
+                            }
+                        }
+                    }
+                }
+                let sections = r.map.sections.len();
+                lines.push(format!("EDIT {} {ops}", hex(&r.text)));
+                expects.push(Expect::Edit { text: r.text, sections });
             }
             5 => {
                 // nesting beyond the limit: accepted under `unbounded` only
@@ -368,6 +438,7 @@ pub fn run(args: Args) -> ! {
             Expect::Doc { text, .. } => text.len() > 0 && (text.contains("long") || text.contains("bytes") || text.matches("a").count() > 3),
             Expect::Tree(t) => t.entries.len() >= 2,
             Expect::Ops { insertion, sorted } => insertion != sorted,
+            Expect::Edit { sections, .. } => *sections > 20,
         };
         if nontrivial {
             rep.stats.nontrivial(fnv64(lines[i].as_bytes()));
@@ -382,7 +453,7 @@ pub fn run(args: Args) -> ! {
             reported += 1;
         };
         // tags compared for equality across configurations of the same class
-        for tag in ["P", "R", "TP", "D", "B", "TD", "TB", "TO", "TR", "TM"] {
+        for tag in ["P", "R", "TP", "D", "B", "TD", "TB", "TO", "TR", "TM", "E", "EB", "EP"] {
             let mut groups: BTreeMap<String, Vec<(&str, &String)>> = BTreeMap::new();
             for (name, m) in &tables {
                 if let Some(v) = m.get(&(i, tag.to_string())) {
@@ -399,7 +470,7 @@ pub fn run(args: Args) -> ! {
                 if let Some((n0, v0)) = vs.first() {
                     for (n, v) in &vs[1..] {
                         if v != v0 {
-                            fail(&mut rep, format!("item {i} tag {tag} [{class}]: configuration `{n0}` gives {:?} but `{n}` gives {:?}\nitem: {}", unhex(v0.trim_start_matches("ok ")).chars().take(300).collect::<String>(), unhex(v.trim_start_matches("ok ")).chars().take(300).collect::<String>(), match e { Expect::Doc { text, .. } => text.chars().take(400).collect::<String>(), _ => lines[i].chars().take(200).collect() }));
+                            fail(&mut rep, format!("item {i} tag {tag} [{class}]: configuration `{n0}` gives {:?} but `{n}` gives {:?}\nitem: {}", show(v0).chars().take(300).collect::<String>(), show(v).chars().take(300).collect::<String>(), match e { Expect::Doc { text, .. } => text.chars().take(400).collect::<String>(), _ => lines[i].chars().take(200).collect() }));
                             break;
                         }
                     }
@@ -456,6 +527,18 @@ pub fn run(args: Args) -> ! {
                     }
                 }
             }
+            Expect::Edit { sections, .. } => {
+                for (name, m) in &tables {
+                    // (whether the text reads back as the edited tree is C08's business — F18 / F21 are known
+                    // there; here the read-back verdict only has to be the same in every configuration)
+                    if m.get(&(i, "EP".to_string())).is_some() {
+                        rep.stats.class("edit-history-checked");
+                        if *sections > 20 {
+                            rep.stats.class("edit-history.sections>20");
+                        }
+                    }
+                }
+            }
             Expect::Tree(tree) => {
                 let mut want = String::new();
                 dump_tbl(tree, false, &mut want);
@@ -474,7 +557,7 @@ pub fn run(args: Args) -> ! {
         }
     }
     rep.extra.insert("configurations".into(), json!(configs.iter().map(|c| json!({"name": c.name, "features": c.features})).collect::<Vec<_>>()));
-    for c in ["config.default", "config.perf", "config.preserve_order", "config.edit-parse-only", "config.edit-display-only", "config.all-unbounded", "order.insertion-checked", "order.sorted-checked", "map-history-checked", "overlimit.accepted-unbounded", "overlimit.rejected-bounded"] {
+    for c in ["config.default", "config.perf", "config.preserve_order", "config.edit-parse-only", "config.edit-display-only", "config.all-unbounded", "order.insertion-checked", "order.sorted-checked", "map-history-checked", "edit-history-checked", "edit-history.sections>20", "overlimit.accepted-unbounded", "overlimit.rejected-bounded"] {
         rep.require_class(c);
     }
     rep.finish()
